@@ -11,8 +11,8 @@ package c19
 import (
 	"bytes"
 	"context"
-	stdjson "encoding/json"
 	"encoding/json"
+	stdjson "encoding/json"
 	"fmt"
 	"os"
 	"reflect"
@@ -25,8 +25,9 @@ import (
 )
 
 type Params struct {
-	Cases    string `json:"cases"`
-	HistMax  int    `json:"hist_max_paths"` // histories use queries with at most this many paths
+	Cases     string `json:"cases"`
+	HistMax   int    `json:"hist_max_paths"` // histories use queries with at most this many paths
+	HistEvery int    `json:"hist_every"`     // take every n-th interfering pair (1 = all)
 }
 
 type queryCase struct {
@@ -319,6 +320,7 @@ func Run(job *wk.Job, w *wk.Worker) error {
 			small = append(small, qc)
 		}
 	}
+	npair := 0
 	for _, a := range small {
 		for _, b := range small {
 			if a.Query == b.Query {
@@ -334,6 +336,11 @@ func Run(job *wk.Job, w *wk.Worker) error {
 				}
 			}
 			if !common && !strings.Contains(a.Query, "{") {
+				idx++
+				continue
+			}
+			npair++
+			if p.HistEvery > 1 && npair%p.HistEvery != 0 && len(a.Paths)+len(b.Paths) > 2 {
 				idx++
 				continue
 			}
